@@ -1379,6 +1379,9 @@ func main() {
 	sum := vh.NewSummary("C20", o,
 		"sequences of javascript / javascript_with_context calls (direct, through Transforms, and on 8 goroutines; caches default / disabled / capacity one); non-trivial = the sequence contains two calls with different argument-name sets that can share a pooled VM (pooling on); distinct by (kind, cache config, scripts, args)")
 	cw := vh.NewCaseWriter(o, "C20", "Model.Js", "jcase", "check_case")
+	if o.Tier != "thorough" {
+		cw.PerFile = 64 // more shards: bin/check evaluates 16 files in parallel
+	}
 	tbl, err := readRuntimeTable()
 	if err != nil || len(tbl.Own) < 10 {
 		sum.Fail("cannot read the runtime's global object through the javascript custom func", nil, fmt.Sprint(err))
@@ -1405,10 +1408,13 @@ func main() {
 		runCorpus(o.Corpus, tbl, sum)
 	}
 
-	total := o.Count(900, 60000)
+	total := o.Count(700, 60000)
 	for n := 0; n < total; n++ {
 		cfg := cfgs[r.Pick(len(cfgs))]
 		kind := []string{"direct", "direct", "direct", "transform", "concurrent", "ancestor"}[r.Pick(6)]
+		if n%30 == 3 {
+			kind = "ctransform"
+		}
 		if n%300 == 7 {
 			kind = "stress"
 			cfg = cfgs[0]
@@ -1420,6 +1426,8 @@ func main() {
 		switch kind {
 		case "stress":
 			runStress(o, r, sum, cw, it, tbl, cfg)
+		case "ctransform":
+			runConcurrentTransforms(o, r, sum, cw, it, tbl, cfg)
 		case "ancestor":
 			runAncestor(o, r, sum, cw, it, tbl, cfg)
 		case "direct":
@@ -1784,7 +1792,7 @@ func runStress(o *vh.Opts, r *vh.Rng, sum *vh.Summary, cw *vh.CaseWriter, it *in
 		{K: "arr", Es: []*SE{{K: "varor", X: "c", A: lit(str("none"))}, {K: "var", X: "b"}, {K: "var", X: "a"}, {K: "var", X: "a"}}},
 		{K: "var", X: "b"},
 	}
-	d := stressDesc{Kind: "stress", Cache: cfg.Name, Goroutines: r.Between(8, 16), Calls: r.Between(1500, 3000), ValueSeed: r.Intn(1000)}
+	d := stressDesc{Kind: "stress", Cache: cfg.Name, Goroutines: r.Between(8, 16), Calls: r.Between(1000, 2000), ValueSeed: r.Intn(1000)}
 	if o.Tier == "thorough" {
 		d.Calls *= 3
 	}
@@ -1971,4 +1979,74 @@ func runSchema(schema, input string) (outs []map[string]interface{}, fatal strin
 		outs = append(outs, out)
 	}
 	return outs, "no EOF within 1000 reads"
+}
+
+// ---- concurrent TRANSFORMS with javascript_with_context on their record nodes ------------------------------
+
+// 8-12 goroutines each drive their own Transform (own Schema object, same text) over their own
+// records; every record runs javascript_with_context on the record node: `_node` must be the JSON
+// of THAT record (the probe custom func reports the node's JSON computed directly).
+func runConcurrentTransforms(o *vh.Opts, r *vh.Rng, sum *vh.Summary, cw *vh.CaseWriter, it *intern, tbl *rtTable, cfg cacheCfg) {
+	G := r.Between(12, 16)
+	nrec := r.Between(50, 90)
+	echo := &SE{K: "var", X: "_node"}
+	pair := &SE{K: "arr", Es: []*SE{{K: "var", X: "_node"}, {K: "var", X: "a"}}}
+	// on the record node and on each of its children: every element node's ID keys the cache
+	fields := []tfField{
+		{Name: "f0", XP: ".", Call: &callT{Node: 0, Script: echo, JS: echo.js()}},
+		{Name: "f1", XP: "s", Call: &callT{Node: 0, Script: pair, JS: pair.js(), Args: []argT{{Name: "a", Val: str("k")}}}},
+		{Name: "f2", XP: "g", Call: &callT{Node: 0, Script: echo, JS: echo.js()}},
+		{Name: "f3", XP: "i", Call: &callT{Node: 0, Script: echo, JS: echo.js()}},
+	}
+	schema := buildSchema(fields)
+	inputs := make([]string, G)
+	for g := range inputs {
+		var recs []string
+		for i := 0; i < nrec; i++ {
+			recs = append(recs, fmt.Sprintf(`{"g":%d,"i":%d,"s":%q}`, g, i, genStr(r)))
+		}
+		inputs[g] = "[" + strings.Join(recs, ",") + "]"
+	}
+	desc := caseDesc{Kind: "ctransform", Cache: cfg.Name, Schema: schema, Input: strings.Join(inputs, "\n")}
+	vh.Current(o, desc)
+	results := make([][][]*callT, G)
+	fatals := make([]string, G)
+	var wg sync.WaitGroup
+	for g := 0; g < G; g++ {
+		wg.Add(1)
+		go func(g int) {
+			defer wg.Done()
+			results[g], fatals[g] = runTransform(schema, inputs[g], fields)
+		}(g)
+	}
+	wg.Wait()
+	canon, _ := json.Marshal(desc)
+	sum.Count(string(canon), !cfg.NoCache)
+	var sample []*callT
+	for g := 0; g < G; g++ {
+		if fatals[g] != "" || len(results[g]) != nrec {
+			sum.Fail("concurrent transforms with javascript_with_context: a transform did not deliver its records", desc,
+				fmt.Sprintf("goroutine %d: %d of %d records; %s", g, len(results[g]), nrec, fatals[g]))
+			return
+		}
+		for i, rec := range results[g] {
+			for _, c := range rec {
+				if j := judgeTransform(tbl, c); j != "" {
+					sum.Fail(fmt.Sprintf("concurrent transforms, goroutine %d, record %d: %s", g, i, j), desc, map[string]interface{}{"call": c})
+					return
+				}
+			}
+			if i < 2 {
+				sample = append(sample, rec...)
+			}
+		}
+	}
+	for _, c := range sample {
+		if c.obsErr != nil {
+			if w := intended(tbl, c, c.NodeJSON); w.Throw {
+				c.obsErr = &gojaLike{}
+			}
+		}
+	}
+	cw.Add(coqCase(r, it, tbl, cfg, sample), desc)
 }
